@@ -288,7 +288,16 @@ def workload(tier, seed, scale=1.0):
 
 
 def stages(tier, seed):
+    from ..cross import cross_stages, portable
     cmds = workload(tier, seed)
     groups = [[c] for c in cmds]
-    return [dict(label='rel', variant='rel', groups=groups, floors=FLOORS), dict(label='dbg', variant='dbg', groups=groups, floors=FLOORS),
-            dict(label='nostd-rel', variant='nostd-rel', groups=groups, floors=FLOORS)]
+    st = [dict(label='rel', variant='rel', groups=groups, floors=FLOORS), dict(label='dbg', variant='dbg', groups=groups, floors=FLOORS),
+          dict(label='nostd-rel', variant='nostd-rel', groups=groups, floors=FLOORS)]
+    # digit-width and endianness independence: the same script under Miri for a 32-bit-digit target (i686) and a
+    # big-endian target (s390x) must give the identical event log (and is checked by the same stream model)
+    sub = portable(cmds)[::(20 if tier == 'quick' else 3)]
+    st += cross_stages('C18', sub, dict(label='x-rel', variant='rel'),
+                       [dict(label='miri-i686', variant='miri-i686', tool='miri:i686', shard_min=8, timeout=1500),
+                        dict(label='miri-s390x', variant='miri-s390x', tool='miri:s390x', shard_min=8, timeout=1500)],
+                       'gen_* must be a platform-independent function of the RNG stream')
+    return st
